@@ -31,7 +31,10 @@ def run(ctx):
     R4 = rep.rule('C03.R4', 'errors name the requested id; Ok payload goes unmodified into the entry', floor=3)
     R5 = rep.rule('C03.R5', 'with_cow passes the whole payload of every FileContent variant', floor=3)
     S1 = rep.rule('C02.R2', 'failure caches nothing (shared with C02)', floor=2)
+    R6 = rep.rule('C03.R6', 'trait defaults: default_value returns the error it is given, EXTENSIONS defaults to [EXTENSION], an Asset is loaded through load_from_source(cache.raw_source(), id)', floor=3)
     for cfg, F in ctx.cfgs():
+        r6(R6, cfg, F)
+        R6.finish_cfg(cfg)
         r1(R1, R3, cfg, F)
         r2(R2, cfg, F)
         r4(R4, cfg, F)
@@ -402,3 +405,38 @@ def r5(R5, cfg, F):
                                         src = b.downcast_source({'k': 'copy', 'place': {'l': d2[3]['rv']['op']['place']['l'], 'p': []}})
                 ok = bool(src) and src[0] == 1 and src[1] == v['name']
         R5.check(ok, cfg, b.path, 'passes-whole-%s-payload' % v['name'], 'the %s arm must pass its whole payload to the loader' % v['name'], '%s:%s' % (b.file, b.blocks[t]['term']['line']))
+
+
+def r6(R6, cfg, F):
+    b = F.body('asset::Asset::default_value')
+    if b:
+        errs = [s for _, _, s in b.assigns() if s['place']['l'] == 0 and s['rv']['k'] == 'aggregate']
+        ok = not b.calls() and len(errs) == 1 and errs[0]['rv'].get('variant_name') == 'Err' and b.origins(errs[0]['rv']['ops'][0]) == {('arg', 2)}
+        R6.check(ok, cfg, b.path, 'default-default_value=Err(error)', 'the default default_value must fail with the very error it is given (so that the preferred error reaches the caller)', b.loc())
+    else:
+        R6.missing(cfg, 'Asset::default_value')
+    eb = F.bodies.get('asset::Asset::EXTENSIONS')
+    if eb:
+        txt = str([s['rv'] for _, _, s in eb.assigns()]) + str([str(x.raw.get('blocks')) for x in F.bodies.values() if x.owner == 'asset::Asset::EXTENSIONS'])
+        R6.check('asset::Asset::EXTENSION' in txt or '<Self as asset::Asset>::EXTENSION' in txt, cfg, 'asset::Asset::EXTENSIONS', 'default-EXTENSIONS=[EXTENSION]',
+                 'the default EXTENSIONS must be the one-element list [Self::EXTENSION]')
+    else:
+        R6.missing(cfg, 'Asset::EXTENSIONS default')
+    lb = F.body('<T as asset::Compound>::load')
+    if lb:
+        rs = [c for c in lb.calls() if c.callee and c.callee.name == 'raw_source']
+        ld = [c for c in lb.calls() if c.callee and c.callee.best == 'asset::load_from_source']
+        ok = len(rs) == 1 and len(ld) == 1 and lb.origins(rs[0].args[0]) == {('arg', 1)} and lb.origins(ld[0].args[0]) == {('call', rs[0].bb)} \
+            and lb.origins(ld[0].args[1]) == {('arg', 2)} and ld[0].dest['l'] == 0 and ld[0].callee.args[:1] == ['T']
+        R6.check(ok, cfg, lb.path, 'Asset-loads-via-load_from_source(raw_source,id)', 'an Asset must be loaded from the (recording) source of the cache it is loaded into, under the requested id', lb.loc())
+    else:
+        R6.missing(cfg, 'impl Compound for T: Asset')
+    ab = F.body('<std::sync::Arc<T> as asset::Compound>::load')
+    if ab:
+        ld = [c for c in ab.calls() if c.callee and c.callee.defp == 'asset::Compound::load']
+        nw = [c for c in ab.calls() if c.callee and c.callee.best == 'std::sync::Arc::<T>::new']
+        ok = len(ld) == 1 and len(nw) == 1 and [ab.origins(a) for a in ld[0].args] == [{('arg', 1)}, {('arg', 2)}]
+        if ok:
+            s = ab.downcast_source(nw[0].args[0])
+            ok = bool(s) and s[1] == 'Continue' and [r.bb for r in ab.call_roots(s[0], passthrough=common.PT_TRY)] == [ld[0].bb]
+        R6.check(ok, cfg, ab.path, 'Arc<T>=Arc::new(T::load(cache,id)?)', 'Arc<T> must load exactly T for the same (cache, id)', ab.loc())
